@@ -320,6 +320,38 @@ def search(ctx):
                 ctx.violation("C12:constraint", "violated overlap constraint (overlap %.3f > %.3f): lnposterior %r, forward evaluations %d" % (overlap, frac, r, cnt2.calls), info)
             if not violated and (r == -np.inf or cnt2.calls != 1):
                 ctx.violation("C12:constraint-ok", "satisfied constraint: lnposterior %r, forward evaluations %d" % (r, cnt2.calls), info)
+            # clusters of 3-6 spheres of UNEQUAL radii: the constraint looks at the pair with the largest (sum of radii - distance),
+            # whichever pair that is (brute force over the pairs, written here independently of the code)
+            mcl = 3 + i % 4
+            rad = [float(rng.uniform(0.15, 1.0)) for _ in range(mcl)]
+            xs_ = [0.0]
+            for q in range(1, mcl):
+                # mostly clear gaps; one scheduled pair may overlap (also a pair that is not the first in any enumeration)
+                gap = float(rng.uniform(0.05, 0.6))
+                if q == 1 + (i // 4) % (mcl - 1) and i % 3 != 2:
+                    gap = -float(rng.uniform(0.02, 0.3)) * min(rad[q - 1], rad[q])
+                xs_.append(xs_[-1] + rad[q - 1] + rad[q] + gap)
+            if i % 2:
+                order_ = [int(v) for v in rng.permutation(mcl)]
+                rad, xs_ = [rad[v] for v in order_], [xs_[v] for v in order_]
+            x0p = Uniform(xs_[0] - 1, xs_[0] + 1, guess=xs_[0])
+            clm = Spheres([Sphere(n=1.59, r=rad[q], center=[x0p if q == 0 else xs_[q], 0.5, 5.0]) for q in range(mcl)], warn=False)
+            fracm = float(rng.uniform(0.05, 0.5))
+            cntm = Counter(data)
+            mm = ExactModel(clm, calc_func=cntm, noise_sd=sd, theory=Mie(), constraints=LimitOverlaps(fracm), **OPT)
+            x0v = float(xs_[0] + rng.uniform(-0.1, 0.1))
+            pos_ = [x0v] + xs_[1:]
+            largest = max(rad[a] + rad[b] - abs(pos_[a] - pos_[b]) for a in range(mcl) for b in range(a + 1, mcl))
+            limit = 2 * min(rad) * fracm      # 'fraction is the largest overlap allowed, in terms of sphere diameter' (of the smallest sphere)
+            ctx.tried("constraint-unequal-cluster", (mcl, round(largest, 4), round(limit, 4), i))
+            if abs(largest - limit) > 1e-9:
+                rm = mm.lnposterior([x0v], data)
+                infom = dict(info, kind="constraint-cluster", radii=rad, x=pos_, fraction=fracm, largest_overlap=largest, limit=limit)
+                if largest > limit and (rm != -np.inf or cntm.calls != 0):
+                    ctx.violation("C12:constraint:unequal-cluster", "%d spheres of unequal radii, largest overlap %.4f > %.4f (fraction x smallest diameter): lnposterior %r, forward evaluations %d" % (
+                        mcl, largest, limit, rm, cntm.calls), infom)
+                if largest <= limit and (rm == -np.inf or cntm.calls != 1):
+                    ctx.violation("C12:constraint-ok:unequal-cluster", "%d spheres of unequal radii, largest overlap %.4f <= %.4f: lnposterior %r, forward evaluations %d" % (mcl, largest, limit, rm, cntm.calls), infom)
             cnt3 = Counter(data)
             im = ExactModel(Sphere(n=1.59, r=Uniform(-1, 1, guess=0.5), center=(1, 1, 5)), calc_func=cnt3, noise_sd=sd, theory=Mie(), **OPT)
             r = im.lnposterior([-0.2], data)
